@@ -250,7 +250,11 @@ func (a *analyzer) analyseRead(n *ssa.Call) *readOutcome {
 					case 0:
 						work = append(work, pos{p.b.Succs[1], 0})
 					default:
-						out.Unknown.add(c)
+						// a test on unrelated state: both continuations are possible for this byte; a test that involves
+						// the byte but cannot be evaluated makes the classification of the byte unknown
+						if condMentions(x.Cond, n, 0) {
+							out.Unknown.add(c)
+						}
 						work = append(work, pos{p.b.Succs[0], 0}, pos{p.b.Succs[1], 0})
 					}
 					ended = true
@@ -348,4 +352,27 @@ func (a *analyzer) tokenCharset(fn *ssa.Function) (*TokenCharset, string) {
 	tc.Rest = rest.selfLoopSet()
 	tc.MayBeEmpty = false
 	return tc, ""
+}
+
+// condMentions: the value v occurs among the operands of cond (through conversions, arithmetic, calls, indexing).
+func condMentions(cond ssa.Value, v ssa.Value, depth int) bool {
+	if cond == v {
+		return true
+	}
+	if depth > 6 {
+		return false
+	}
+	in, ok := cond.(ssa.Instruction)
+	if !ok {
+		return false
+	}
+	if _, isPhi := cond.(*ssa.Phi); isPhi {
+		return false
+	}
+	for _, op := range in.Operands(nil) {
+		if *op != nil && condMentions(*op, v, depth+1) {
+			return true
+		}
+	}
+	return false
 }
